@@ -4,6 +4,7 @@ From Coq Require Import NArith List Bool.
 From AV Require Import Generated.Table Spec.Utf8 Spec.Vt Spec.Strip Model.Base Model.Parser Model.Strip
   Proofs.TableFacts Proofs.StripMachine Proofs.StripSim Proofs.StripStr Proofs.StripPieces Proofs.StripVisible
   Generated.StripFn Proofs.StripGen.
+From AV Require Import Spec.Io Model.Stream Generated.StreamFn Proofs.StreamGen.
 Import ListNotations.
 Local Open Scope N_scope.
 
@@ -92,7 +93,7 @@ Theorem c01_translated_next_str_is_model :
 Proof. exact g_next_str_eq. Qed.
 
 Theorem c01_translated_utf8_add_is_model :
-  forall u b, g_utf8_add u b = Some (utf8_add u b).
+  forall u b, g_utf8_add u b = utf8_add u b.
 Proof. exact g_utf8_add_eq. Qed.
 
 (* strip_bytes(data).into_vec(), translated from end to end *)
@@ -115,3 +116,12 @@ Theorem c01_translated_strip_str_refines_spec :
   forall input, bytes_ok input -> valid_utf8 input = true ->
   g_strip_str_to_string input = Some (spec_strip input).
 Proof. exact translated_strip_str_refines_spec. Qed.
+
+(* the never-colour stream: the functions of crates/anstream/src/strip.rs TRANSLATED from the source
+   (Generated/StreamFn.v) answer, for any sequence of write-family calls, what the stream model with the
+   choice Never answers -- whose delivered bytes are Spec/Strip of the data (C06 / C08) *)
+Theorem c01_translated_never_stream_is_model :
+  forall b d ops x,
+  match g_ss_run x ops with Some (x1, rs) => Some (ss_state x1, ss_raw x1, rs) | None => None end
+  = run_ops b (auto_mode CNever d) (ss_state x) (ss_raw x) ops.
+Proof. exact translated_never_is_model. Qed.
